@@ -11,7 +11,7 @@ C14MPlan plan;
 bool done;
 const unsigned long long SIZES[] = {8ULL << 20, (8ULL << 20) + 4096, (17ULL << 19), 9ULL << 20, (19ULL << 19), (10ULL << 20) - 1, (8ULL << 20) - 1, 6ULL << 20,
                                     0, 1, 64, 4097, 1ULL << 20};
-const char *probe_names[] = {"block_of_8MiB_or_more_allocated", nullptr};
+const char *probe_names[] = {"block_of_8MiB_or_more_allocated", "allocator_reissues_released_blocks", nullptr};
 const char *no_faults[] = {nullptr};
 void reset()
 {
@@ -35,6 +35,7 @@ void do_plan(int)
       op.align_log2 = al[sim_plan(4)];
     }
   }
+  plan.recycle = sim_plan(2) == 1;  // drawn last
   sim_set_step_cap(3000000);
 }
 void check()
@@ -52,7 +53,7 @@ int stuck(int deadlock, char *cls, size_t n)
 }
 void describe(char *buf, size_t n)
 {
-  int k = snprintf(buf, n, "{\"threads\": [");
+  int k = snprintf(buf, n, "{\"allocator_reissues_released_blocks\": %d, \"threads\": [", plan.recycle);
   for (int t = 0; t < plan.nthreads; t++) {
     k += snprintf(buf + k, n - k, "%s[", t ? "," : "");
     for (int i = 0; i < plan.nops[t] && k < (int)n - 120; i++) {
@@ -76,4 +77,11 @@ unsigned long long c14m_size(int idx) { return SIZES[idx]; }
 void c14m_fail(const char *cls, const char *msg) { sim_fail(cls, "%s", msg); }
 void c14m_probe(int id) { sim_probe(id); }
 void c14m_done() { done = true; }
+void c14m_backend_live(int blocks)
+{
+  if (plan.recycle)
+    sim_probe(1);
+  if (blocks != 0 && !sim_failed())
+    sim_fail("C14:block-never-released", "every block was passed to alignedFree exactly once, but the allocator behind it still holds %d block(s) that were never released to it", blocks);
+}
 }
